@@ -9,15 +9,16 @@
                  bit_vector::OneIter<Identity|Complement> from every entry point, and the four iterators
                  of the run-length vector - Model/RL.v + Model/RLIters.v - on the vector rebuilt by the
                  model's builder with the harness's calls; ValueIter / IntoIter / AccessIter of the wavelet
-                 matrix - Model/WM.v + Model/WMIters.v - on the matrix rebuilt by the model's From<Vec<T>>)
-                 replayed on the same calls. For the iterator types without a model (sparse) the model side
-                 is vacuous. *)
+                 matrix - Model/WM.v + Model/WMIters.v - on the matrix rebuilt by the model's From<Vec<T>>;
+                 and the three iterators of the sparse vector - Model/Sparse.v + Model/SparseIters.v - on the
+                 vector rebuilt with the recorded low width: cases CIterS / CExhS) replayed on the same calls. *)
 From Coq Require Import NArith List Bool.
 Require Import SDS.Model.Mach SDS.Model.Bits SDS.Model.Raw SDS.Model.IntVec SDS.Model.BitVec SDS.Model.Iters.
 Require Export SDS.Spec.Deque SDS.Spec.IterRefs.
 Require Import SDS.Spec.BitSeq SDS.Check.Common.
 Require SDS.Model.RL SDS.Model.RLIters.   (* qualified: Model/RL.v reuses record names of Model/BitVec.v *)
 Require SDS.Model.WM SDS.Model.WMIters SDS.Check.WMBuild.   (* qualified: the wavelet matrix rebuilt by Model/WM.v *)
+Require SDS.Model.Sparse SDS.Model.SparseIters.   (* qualified as well *)
 Import ListNotations.
 Open Scope N_scope.
 
@@ -32,7 +33,11 @@ Inductive case :=
 (* path: 0 = BMI2 build, 1 = portable; dbg: overflow checks on *)
 | CIter (path : N) (dbg : bool) (s : src) (e : entry) (ref : list (N * N)) (runs : list (list call * list obs))
 (* the 256 call strings [exh_calls] in their fixed order; only the outputs are listed *)
-| CExh (path : N) (dbg : bool) (s : src) (e : entry) (ref : list (N * N)) (outs : list (list obs)).
+| CExh (path : N) (dbg : bool) (s : src) (e : entry) (ref : list (N * N)) (outs : list (list obs))
+(* the same two for a SparseVector, with the low width w the crate chose (read from its serialization: the f64
+   width rule is an oracle argument of Model/Sparse.v) *)
+| CIterS (w : N) (path : N) (dbg : bool) (s : src) (e : entry) (ref : list (N * N)) (runs : list (list call * list obs))
+| CExhS (w : N) (path : N) (dbg : bool) (s : src) (e : entry) (ref : list (N * N)) (outs : list (list obs)).
 
 Definition sp_of (path : N) : selpath := if path =? 0 then Pdep else Portable.
 Definition mode_of (dbg : bool) : mode := if dbg then Debug else Release.
@@ -171,13 +176,45 @@ Definition model_ok (sp : selpath) (m : mode) (s : src) (e : entry) (runs : list
           end
       | _ => false
       end
-  | _ => true   (* no model of the sparse iterators yet *)
+  | _ => true   (* sparse: see model_sparse below (cases CIterS / CExhS);  *)
+  end.
+
+(* SparseVector: rebuilt by Model/Sparse.v as the harness builds it (SparseBuilder::multiset when two neighbours of the
+   sorted value list are equal, SparseBuilder::new otherwise; set per value; try_from) with the recorded low width;
+   the iterators are the step functions of Model/SparseIters.v (the subject of Props/C10_sparse.v) *)
+Fixpoint dup_neighbours (l : list N) : bool :=
+  match l with
+  | a :: (b :: _) as t => (a =? b) || dup_neighbours t
+  | _ => false
+  end.
+Definition model_sparse (sp : selpath) (m : mode) (w : N) (s : src) (e : entry) (runs : list (list call * list obs)) : bool :=
+  match s with
+  | SSparse len vs =>
+      match Sparse.unwrap_sum (if dup_neighbours vs then Sparse.sv_build_multiset sp m w len vs
+                               else Sparse.sv_build_set sp m w len vs) with
+      | Ok sv =>
+          match e with
+          | EIter =>
+              match Sparse.sv_iter_new m sv with
+              | Ok it => forallb (run_agrees (SparseIters.sp_bi_step m sv) enc_bool it) runs
+              | _ => false
+              end
+          | _ =>
+              match SparseIters.sp_oi_entry sp m sv e, SparseIters.sp_zi_entry sp m sv e with
+              | Some (Ok it), _ => forallb (run_agrees (SparseIters.sp_oi_step m sv) (fun x => x) it) runs
+              | None, Some (Ok it) => forallb (run_agrees (SparseIters.sp_zi_step m sv) (fun x => x) it) runs
+              | _, _ => false
+              end
+          end
+      | _ => false
+      end
+  | _ => false
   end.
 
 Definition runs_of_case (c : case) : list (list call * list obs) :=
   match c with
-  | CIter _ _ _ _ _ runs => runs
-  | CExh _ _ _ _ _ outs => combine exh_calls outs
+  | CIter _ _ _ _ _ runs | CIterS _ _ _ _ _ _ runs => runs
+  | CExh _ _ _ _ _ outs | CExhS _ _ _ _ _ _ outs => combine exh_calls outs
   end.
 
 Definition check (c : case) : N :=
@@ -188,11 +225,17 @@ Definition check (c : case) : N :=
       let runs := combine exh_calls outs in
       code (model_ok (sp_of path) (mode_of dbg) s e runs)
            (spec_ok s e ref runs && (N.of_nat (length outs) =? 256))
+  | CIterS w path dbg s e ref runs =>
+      code (model_sparse (sp_of path) (mode_of dbg) w s e runs) (spec_ok s e ref runs)
+  | CExhS w path dbg s e ref outs =>
+      let runs := combine exh_calls outs in
+      code (model_sparse (sp_of path) (mode_of dbg) w s e runs)
+           (spec_ok s e ref runs && (N.of_nat (length outs) =? 256))
   end.
 
 (* for replays: the reference by the spec, and per call string the spec's outputs *)
 Definition explain (c : case) :=
   match c with
-  | CIter _ _ s e ref _ | CExh _ _ s e ref _ =>
+  | CIter _ _ s e ref _ | CExh _ _ s e ref _ | CIterS _ _ _ s e ref _ | CExhS _ _ _ s e ref _ =>
       (ref_of s e, map (fun r => (fst r, snd (dq_run ref (fst r)), snd r)) (runs_of_case c))
   end.
